@@ -153,7 +153,11 @@ func validateEndBuf(src []byte, cursor int64) error {
 			cursor++
 			continue
 		case nul:
-			return nil
+			if cursor == int64(len(src))-1 {
+				// the terminator that was appended to the input
+				return nil
+			}
+			// a NUL byte of the input itself: what follows the value is not white space
 		}
 		return errors.ErrSyntax(
 			fmt.Sprintf("invalid character '%c' after top-level value", src[cursor]),
